@@ -16,7 +16,9 @@ import (
 	"strconv"
 	"strings"
 
+	"github.com/containerd/nri/pkg/api"
 	cfgapi "github.com/containers/nri-plugins/pkg/apis/config/v1alpha1"
+	libmem "github.com/containers/nri-plugins/pkg/resmgr/lib/memory"
 	"github.com/containers/nri-plugins/pkg/kubernetes"
 	"github.com/containers/nri-plugins/pkg/utils/cpuset"
 	"github.com/containers/nri-plugins/pkg/verif/mc"
@@ -63,6 +65,9 @@ func (c *wctr) effAnn(key string) (string, bool) {
 
 func (c *wctr) cpuPreserved() bool { v, ok := c.effAnn(annPreserveCPU); return ok && v == "true" }
 func (c *wctr) memPreserved() bool { v, ok := c.effAnn(annPreserveMem); return ok && v == "true" }
+
+// verifCounters collects non-vacuity counters; runProp copies them into the worker result.
+var verifCounters = map[string]int64{}
 
 type viols struct {
 	prop, scn string
@@ -861,4 +866,118 @@ func (x *exec) preserveRuleMatches(c *wctr) bool {
 		}
 	}
 	return false
+}
+
+
+// ---------------------------------------------------------------------------
+// C04
+
+func maskString(m uint64) string { return libmem.NodeMask(m).MemsetString() }
+
+// memPinned: does memory pinning apply to the container (reference reading of configuration and annotations)?
+func (x *exec) memPinned(c *wctr, post *snap) bool {
+	if c.memPreserved() {
+		return false
+	}
+	switch cfg := x.scn.cfgs[x.w.cfgIdx].build().(type) {
+	case *cfgapi.TopologyAwarePolicy:
+		return cfg.Spec.Config.PinMemory && !c.cpuPreservedAndMemUnset()
+	case *cfgapi.BalloonsPolicy:
+		if c.cpuPreserved() || x.preserveRuleMatches(c) {
+			return false
+		}
+		pin := cfg.Spec.Config.PinMemory == nil || *cfg.Spec.Config.PinMemory
+		if post.BL != nil {
+			for _, b := range post.BL.Balloons {
+				for _, id := range b.Containers {
+					if id == c.id() {
+						for _, d := range cfg.Spec.Config.BalloonDefs {
+							if d.Name == b.Def && d.PinMemory != nil {
+								pin = *d.PinMemory
+							}
+						}
+					}
+				}
+			}
+		}
+		return pin
+	}
+	return false
+}
+
+func (c *wctr) cpuPreservedAndMemUnset() bool { return false }
+
+func oracleC04(x *exec, v *viols, pre, post *snap, rp *reply) {
+	evKind := strings.Split(rp.ev, ":")[0]
+	for _, c := range x.liveCtrs() {
+		if !x.memPinned(c, post) {
+			continue
+		}
+		cc, ok := post.Cache[c.id()]
+		if !ok {
+			continue
+		}
+		z, assigned := post.MemZone[c.id()]
+		if assigned {
+			verifCounters["c04_pinned_container_checked_against_allocator"]++
+			if libmem.NodeMask(z).Size() > 1 {
+				verifCounters["c04_multi_node_zone"]++
+			}
+		}
+		for _, view := range []struct{ name, mems string }{{"told", c.told.Mems}, {"cache", cc.Res.Mems}} {
+			if assigned && view.mems != maskString(z) {
+				v.add("mems-differ-from-allocator", "mems-differ-from-allocator:"+view.name+":"+evKind, "after %s container %s: %s cpuset.mems %q but the allocator assigns zone %q", rp.ev, c.id(), view.name, view.mems, maskString(z))
+			}
+			if view.mems == "" {
+				v.add("mems-empty", "mems-empty:"+view.name+":"+evKind, "after %s memory-pinned container %s has empty %s cpuset.mems", rp.ev, c.id(), view.name)
+				continue
+			}
+			for _, n := range parseSet(view.mems).List() {
+				if post.MemAll&(1<<uint(n)) == 0 {
+					v.add("mems-without-memory", "mems-without-memory:"+view.name, "after %s container %s is pinned (%s) to node %d which does not exist or has no memory (mems %q)", rp.ev, c.id(), view.name, n, view.mems)
+				}
+			}
+		}
+	}
+	if rp.err == nil {
+		for set, capa := range post.MemCap {
+			var used int64
+			isZone := false
+			for _, r := range post.MemReqs {
+				if r.Zone&^set == 0 {
+					used += r.Size
+				}
+				if r.Zone == set {
+					isZone = true
+				}
+			}
+			if used > capa {
+				class := "union-of-overlapping-zones"
+				if isZone {
+					class = "assigned-zone"
+				}
+				v.add("memory-oversubscribed", "memory-oversubscribed:"+class, "after %s nodes %s hold allocations of %d bytes confined to them, capacity %d", rp.ev, maskString(set), used, capa)
+			}
+		}
+	}
+	// zones of other containers that widened during this request must be delivered in this request
+	if pre != nil && rp.panic == "" {
+		delivered := map[string]string{}
+		for _, u := range append(append([]*api.ContainerUpdate{}, rp.updates...), rp.pushed...) {
+			if m := u.GetLinux().GetResources().GetCpu().GetMems(); m != "" {
+				delivered[u.GetContainerId()] = m
+			}
+		}
+		for id, z := range post.MemZone {
+			old, had := pre.MemZone[id]
+			c := x.w.byID[id]
+			if !had || old == z || c == nil || !c.live() || (rp.target != nil && rp.target.id() == id) || !x.memPinned(c, post) {
+				continue
+			}
+			verifCounters["c04_zones_widened_for_other_container"]++
+			if delivered[id] != maskString(z) {
+				v.add("widened-zone-not-delivered", "widened-zone-not-delivered:"+evKind, "%s moved the memory of %s from %s to %s but the reply delivers mems %q for it", rp.ev, id, maskString(old), maskString(z), delivered[id])
+			}
+		}
+	}
 }
